@@ -103,7 +103,10 @@ def _run(ex, c, ci, node, res):
             ty = case[p]
             if ty.k == "func":
                 raise Unsupported("function-typed parameter %s needs a uf declaration" % p)
-            st.store[p] = fresh_value(st, ty, p)
+            if p in c.consts[ci]:
+                st.store[p] = VStr(c.consts[ci][p])
+            else:
+                st.store[p] = fresh_value(st, ty, p)
         elif p in c.kwonly_defaults:
             st.store[p] = _uf_param(p, c.kwonly_defaults[p])
         elif p in defaults:
@@ -139,6 +142,8 @@ def _run(ex, c, ci, node, res):
     extra = c.per_case.get(c.case_names[ci], {})
     for _t, r in c.requires + [("", x) for x in extra.get("requires", [])]:
         st.assume(ex.spec_bool(r, st, ctx0, entry_env))
+    for d in c.defines:
+        st.assume(ex.spec_bool(d, st, ctx0, entry_env))
     old = st.fork()
     st.labels = {"old": old}
     ex.covers.append(("entry::requires-satisfiable", list(st.pc)))
